@@ -63,61 +63,46 @@ Theorem C38_rejected_dkg_txn_changes_nothing :
 Proof. exact dk_exec_not_accepted_unchanged. Qed.
 Print Assumptions C38_rejected_dkg_txn_changes_nothing.
 
-(* public keys: only in Contribute, only from a member of the DKG set, only with T entries, once per id *)
-Theorem C38_mpk_accepted_only_in_phase_with_size :
+(* public keys: only in Contribute, only from a member of the DKG set, only with T entries, recorded for the
+   sender (whatever "ID" the input carries), once per miner *)
+Theorem C38_mpk_accepted_only_in_phase_once_per_miner :
   forall phase d s c dec n d',
     dk_contribute phase d s c dec n = (d', DAccept) ->
     phase = ph_Contribute /\ dk_mem s (dk_miners d) = true /\ dec = true /\ n = dk_T d /\
-    dk_mem c (dk_mpks d) = false /\ dk_mpks d' = c :: dk_mpks d /\ dk_miners d' = dk_miners d /\ dk_T d' = dk_T d.
+    dk_mem s (dk_mpks d) = false /\ dk_mpks d' = s :: dk_mpks d /\ dk_miners d' = dk_miners d /\ dk_T d' = dk_T d.
 Proof. exact dk_contribute_accept. Qed.
-Print Assumptions C38_mpk_accepted_only_in_phase_with_size.
+Print Assumptions C38_mpk_accepted_only_in_phase_once_per_miner.
 
-Theorem C38_mpk_once_per_id :
-  forall phase d s c dec n, dk_mem c (dk_mpks d) = true -> snd (dk_contribute phase d s c dec n) = DReject.
+Theorem C38_mpk_once_per_miner :
+  forall phase d s c dec n, dk_mem s (dk_mpks d) = true -> snd (dk_contribute phase d s c dec n) = DReject.
 Proof. exact dk_contribute_once. Qed.
-Print Assumptions C38_mpk_once_per_id.
+Print Assumptions C38_mpk_once_per_miner.
 
-(* full statement "once per participating miner": the key is recorded for the sender. Refuted: the id is read
-   from the input after being preset to the sender, so a member can contribute under another member's id *)
-Definition C38_mpk_recorded_for_sender_full_statement : Prop :=
-  forall phase d s c dec n d', dk_contribute phase d s c dec n = (d', DAccept) -> c = s.
-Theorem C38_mpk_recorded_for_sender_refuted : ~ C38_mpk_recorded_for_sender_full_statement.
-Proof. exact pw_refute_contribution_for_sender. Qed.
-Print Assumptions C38_mpk_recorded_for_sender_refuted.
+Theorem C38_mpk_recorded_for_sender :
+  forall phase d s c c' dec n, dk_contribute phase d s c dec n = dk_contribute phase d s c' dec n.
+Proof. exact dk_contribute_ignores_claim. Qed.
+Print Assumptions C38_mpk_recorded_for_sender.
 
-(* shares: only in Publish, once per sender, at least K-1 entries, every non-null entry valid *)
-Theorem C38_share_accepted_only_in_phase_partial :
+(* shares: only in Publish, only from a member of the DKG set, once per sender, at least K-1 entries, every
+   entry present and valid (a verified signature of the keyed miner or a share that validates against the
+   sender's own MPK) *)
+Theorem C38_share_accepted_only_from_participating_miner :
   forall phase d s dec idk es d',
     dk_share phase d s dec idk es = (d', DAccept) ->
-    phase = ph_Publish /\ dk_mem s (dk_gsos d) = false /\ dec = true /\ dk_K d - 1 <= Z.of_nat (List.length es) /\
-    Forall so_entry_ok es /\ dk_gsos d' = s :: dk_gsos d.
+    phase = ph_Publish /\ dk_mem s (dk_gsos d) = false /\ dk_mem s (dk_miners d) = true /\ dec = true /\
+    dk_K d - 1 <= Z.of_nat (List.length es) /\ Forall so_entry_ok es /\ ~ In SoNil es /\ dk_gsos d' = s :: dk_gsos d.
 Proof. exact dk_share_accept. Qed.
-Print Assumptions C38_share_accepted_only_in_phase_partial.
+Print Assumptions C38_share_accepted_only_from_participating_miner.
 
 Theorem C38_share_once_per_sender :
   forall phase d s dec idk es, dk_mem s (dk_gsos d) = true -> snd (dk_share phase d s dec idk es) = DReject.
 Proof. exact dk_share_once. Qed.
 Print Assumptions C38_share_once_per_sender.
 
-(* full statement: the sender is a participating miner and every entry carries content. Refuted (F-38):
-   shareSignsOrShares has no DKG-set membership test and Validate skips null entries *)
-Definition C38_share_from_participating_miner_full_statement : Prop :=
-  forall phase d s dec idk es d', dk_share phase d s dec idk es = (d', DAccept) ->
-    dk_mem s (dk_miners d) = true /\ ~ In SoNil es.
-Theorem C38_share_from_participating_miner_refuted : ~ C38_share_from_participating_miner_full_statement.
-Proof. exact pw_refute_share_from_member. Qed.
-Print Assumptions C38_share_from_participating_miner_refuted.
-
-(* full statement: invalid DKG transactions are rejected, never fatal. Refuted: a revealed share under an id
-   without MPK dereferences a nil *MPK *)
-Definition C38_dkg_txn_never_panics_full_statement : Prop := forall phase d t, snd (dk_exec phase d t) <> DPanic.
-Theorem C38_dkg_txn_never_panics_refuted : ~ C38_dkg_txn_never_panics_full_statement.
-Proof. exact pw_refute_no_panic. Qed.
-Print Assumptions C38_dkg_txn_never_panics_refuted.
-
-Theorem C38_share_no_panic_partial : forall phase d s dec es, snd (dk_share phase d s dec true es) <> DPanic.
-Proof. exact dk_share_no_panic_known_id. Qed.
-Print Assumptions C38_share_no_panic_partial.
+(* invalid DKG transactions are rejected, never fatal *)
+Theorem C38_dkg_txn_never_panics : forall phase d t, snd (dk_exec phase d t) <> DPanic.
+Proof. exact dk_exec_never_panics. Qed.
+Print Assumptions C38_dkg_txn_never_panics.
 
 (* wait confirmations: only in Wait, once per sender *)
 Theorem C38_wait_accepted_only_in_phase :
@@ -130,46 +115,52 @@ Theorem C38_wait_once_per_sender : forall phase d s, dk_mem s (dk_waited d) = tr
 Proof. exact dk_wait_once. Qed.
 Print Assumptions C38_wait_once_per_sender.
 
-(* the new magic block keeps a member of the previous set. Full statement: whenever the candidates contain a
-   previous member (checked by reduceNodes / moveToShareOrPublish) the selection does too. Refuted when
-   int(ceil(x_percent * maxNodes)) is not positive (x_percent is not validated by update_settings) *)
-Definition C38_magic_block_keeps_prev_member_full_statement : Prop :=
-  forall is_prev ceilx prev others, prev <> [] -> (forall p, In p prev -> is_prev p = true) ->
-    exists l, rd_select ceilx prev others = Some l /\ rd_has_prev is_prev l = true.
-Theorem C38_magic_block_keeps_prev_member_refuted : ~ C38_magic_block_keeps_prev_member_full_statement.
-Proof. exact pw_refute_keeps_prev. Qed.
-Print Assumptions C38_magic_block_keeps_prev_member_refuted.
+(* the new magic block keeps a member of the previous set: x_percent = p/q is validated to lie in (0; 1], the
+   candidates contain a previous member (checked by reduceNodes / moveToShareOrPublish), n >= 1 slots *)
+Theorem C38_magic_block_keeps_prev_miner :
+  forall is_prev p q n prev others,
+    0 < p <= q -> 1 <= n -> prev <> [] -> (forall x, In x prev -> is_prev x = true) ->
+    exists l, rd_select (rd_ceil p q n) prev others = Some l /\ rd_has_prev is_prev l = true.
+Proof. exact rd_magic_block_keeps_prev. Qed.
+Print Assumptions C38_magic_block_keeps_prev_miner.
 
-Theorem C38_magic_block_keeps_prev_miner_partial :
+(* the same for whatever positive number the float computation int(ceil(x_percent * n)) yields *)
+Theorem C38_magic_block_keeps_prev_miner_any_ceil :
   forall is_prev ceilx prev others, 1 <= ceilx -> prev <> [] -> (forall p, In p prev -> is_prev p = true) ->
     exists l, rd_select ceilx prev others = Some l /\ rd_has_prev is_prev l = true.
 Proof. exact rd_select_keeps_prev. Qed.
-Print Assumptions C38_magic_block_keeps_prev_miner_partial.
+Print Assumptions C38_magic_block_keeps_prev_miner_any_ceil.
 
-Theorem C38_magic_block_keeps_prev_sharder_partial :
-  forall is_prev ceilx prev others, 1 <= ceilx -> prev <> [] -> (forall p, In p prev -> is_prev p = true) ->
+(* sharders: reduceShardersList always returns a list with a previous sharder and does not panic *)
+Theorem C38_magic_block_keeps_prev_sharder :
+  forall is_prev ceilx prev others, 0 <= ceilx -> prev <> [] -> (forall p, In p prev -> is_prev p = true) ->
     exists l, rd_sharders is_prev ceilx prev others = Some l /\ rd_has_prev is_prev l = true.
 Proof. exact rd_sharders_ok. Qed.
-Print Assumptions C38_magic_block_keeps_prev_sharder_partial.
-
-(* for sharders the only other outcome is a panic: the fallback searches the already reduced list *)
-Theorem C38_sharders_prev_or_panic :
-  forall is_prev ceilx prev others l, rd_sharders is_prev ceilx prev others = Some l -> rd_has_prev is_prev l = true.
-Proof. exact rd_sharders_has_prev. Qed.
-Print Assumptions C38_sharders_prev_or_panic.
+Print Assumptions C38_magic_block_keeps_prev_sharder.
 
 (* Non-vacuity: nine blocks over the generated tables: Start -> Contribute -> Share -> Publish with accepted,
    duplicate, out-of-set, wrong-size and out-of-phase transactions, then a failed move and the restart *)
 Example C38_example :
   let '(s, l) := pw_run {| vs_pn := None; vs_dk := dk_cleared |} pw_history in
   map snd l = [PSaved; PSaved; PSaved; PSaved; PSaved; PSaved; PSaved; PSaved; PSaved] /\
-  map fst l = [[]; [DReject]; []; [DAccept; DReject; DReject; DReject; DReject]; [DAccept]; []; []; [DAccept; DReject; DReject]; []] /\
+  map fst l = [[]; [DReject]; []; [DAccept; DReject; DReject; DReject; DReject]; [DAccept]; []; []; [DAccept; DReject; DReject; DReject]; []] /\
   vs_pn s = Some {| pn_phase := 0; pn_start := 9; pn_current := 9; pn_restarts := 1 |} /\ vs_dk s = dk_cleared.
 Proof. exact pw_history_result. Qed.
 
-Example C38_example_stranger_share :
-  snd (dk_share ph_Publish pw_dk 99 true false [SoNil; SoNil]) = DAccept /\ dk_mem 99 (dk_miners pw_dk) = false.
-Proof. exact pw_stranger_share_accepted. Qed.
+Example C38_example_share_admission :
+  snd (dk_share ph_Publish pw_dk 99 true false [SoSign true; SoSign true]) = DReject /\
+  snd (dk_share ph_Publish pw_dk 1 true true [SoNil; SoNil]) = DReject /\
+  snd (dk_share ph_Publish pw_dk 1 true false [SoShare true true; SoSign true]) = DReject /\
+  snd (dk_share ph_Publish pw_dk 1 true true [SoShare true true; SoSign true]) = DAccept.
+Proof. exact pw_stranger_share_refused. Qed.
 
-Example C38_example_nonpositive_x : rd_select (-1) [1] [2; 3] = None /\ rd_sharders pw_is_prev 0 [1] [2; 3] = None.
-Proof. exact pw_negative_x_panics. Qed.
+Example C38_example_mpk_for_sender :
+  dk_mpks (fst (dk_contribute ph_Contribute pw_dk0 1 2 true 3)) = [1] /\
+  snd (dk_contribute ph_Contribute (fst (dk_contribute ph_Contribute pw_dk0 1 2 true 3)) 2 2 true 3) = DAccept /\
+  snd (dk_contribute ph_Contribute (fst (dk_contribute ph_Contribute pw_dk0 1 2 true 3)) 1 3 true 3) = DReject.
+Proof. exact pw_contribute_for_other. Qed.
+
+Example C38_example_selection :
+  rd_ceil 7 10 2 = 2 /\ rd_select (rd_ceil 7 10 2) [1] [2; 3] = Some [1; 2; 3] /\
+  rd_sharders pw_is_prev 0 [1] [2; 3] = Some [2; 3; 1].
+Proof. exact pw_selection_example. Qed.
